@@ -182,7 +182,10 @@ GibbsDuhemLnPhi(e) ==
   \A j \in 1..e.n :
     LET col == [i \in 1..e.n |-> e.der.dln_phi_dnj[i][j]] IN
     ChkT("C02.gibbs_duhem_lnphi", <<e.case, j, l>>,
-         SumT(NVec(e), col, "0", RtolFormula, FAdd("1", FDiv(FMul(FSum(NVec(e)), NatB(e, <<DirN(j), DirN(j)>>)), e.x[DirT]))))
+         \* d ln phi_i / d N_j = (d mu_i / d N_j) / T + 1 / N + (dp/dN_i)(dp/dN_j) / (dp/dV) / T: near close packing the last term is large and
+         \* cancels against the first, so its magnitude belongs to the scale of the identity (found on helium at 0.83 of the maximum density)
+         SumT(NVec(e), col, "0", RtolFormula, FAdd(FAdd("1", FDiv(FMul(FSum(NVec(e)), NatB(e, <<DirN(j), DirN(j)>>)), e.x[DirT])),
+                                                   FDiv(FMul(FSum(NVec(e)), FMul(FSumAbs(e.center.tot.dp_dni), FSumAbs(e.center.tot.dp_dni))), FMul(FAbs(e.center.tot.dp_dv), e.x[DirT])))))
 PartialMolarSums(e) ==
   /\ ChkT("C02.partial_molar_sum", <<e.case, "V", l>>, SumT(NVec(e), e.der.v_i, e.x[DirV], RtolFormula, "0"))
   /\ ChkT("C02.partial_molar_sum", <<e.case, "S", l>>, SumT(NVec(e), e.der.s_i, e.center.tot.S, RtolFormula, NatB(e, <<DirT>>)))
